@@ -183,6 +183,17 @@ def popAll : List Str → Event → Option Event
 
 def pushAll (codes : List Str) (rc : Option Str) : Option Str := codes.foldl (fun rc c => Deco.prefixRoute c rc) rc
 
+/-- `add_rule` called by the driver: registration, then — flag set and a run in progress — the new sink's
+`startTestRun()` (a call by the router like any other: the sink's script applies) -/
+def addStep (s : State) (o : Op) : State × List Item × Res :=
+  match (regStep s o).2.2 with
+  | .raised x => (s, [], .raised x)
+  | _ =>
+    match (regStep s o).2.1 with
+    | some y =>
+      ((callTop (regStep s o).1 y .start).1, (callTop (regStep s o).1 y .start).2.1, resOf (callTop (regStep s o).1 y .start).2.2)
+    | none => ((regStep s o).1, [], .ok)
+
 /-- one operation of the driver: new state, what is observed during it, what the driver sees.
 `startTestRun`: the loop, and only when it has completed `_in_run = True`; `stopTestRun` likewise with `False`. -/
 def step (s : State) : Op → State × List Item × Res
@@ -208,17 +219,7 @@ def step (s : State) : Op → State × List Item × Res
       match popAll codes.reverse { e with route := pushAll codes e.route } with
       | some e' => (s, [], .arrived e')
       | none => (s, [], .raised "AttributeError")
-  | o =>
-    -- the three add_rule operations
-    let r := regStep s o
-    match r.2.2 with
-    | .raised x => (s, [], .raised x)
-    | _ =>
-      match r.2.1 with
-      | some y =>
-        let c := callTop r.1 y .start
-        (c.1, c.2.1, resOf c.2.2)
-      | none => (r.1, [], .ok)
+  | o => addStep s o     -- the three add_rule operations
 
 def run : State → List Op → List (List Item) × List Res
   | _, [] => ([], [])
